@@ -582,61 +582,69 @@ func main() {
 			{"box-prop-3kinds", alpha{Generics: []string{"Box"}, Types: three, Vals: three, Routes: []string{"prop"}}, 6},
 		}
 	}
-	var shards []pool.Shard
-	shardPlan := []int{}
 	expected := map[string]map[int]int64{}
 	const plen = 2
-	for pi, p := range plans {
-		expected[p.name] = countSeqs(p.a, p.maxLen)
-		shards = append(shards, pool.Shard{Kind: "short", Arg: shardArg{MaxLen: plen - 1, Alpha: p.a, Seed: c.Seed}})
-		shardPlan = append(shardPlan, pi)
-		for _, o1 := range successors(nil, p.a, nil) {
-			for _, o2 := range successors([]Op{o1}, p.a, nil) {
-				shards = append(shards, pool.Shard{Kind: "seq", Arg: shardArg{Prefix: []Op{o1, o2}, MaxLen: p.maxLen, Alpha: p.a, Seed: c.Seed}})
-				shardPlan = append(shardPlan, pi)
-			}
-		}
-	}
-	shards = append(shards, pool.Shard{Kind: "table", Arg: shardArg{Seed: c.Seed}})
-	shardPlan = append(shardPlan, -1)
-
 	var total, later, redRuns, tableN int64
 	got := map[string]map[int]int64{}
 	outcomes := map[string]int{}
-	pool.Run(shards, pool.Options{}, func(si int, rb json.RawMessage) {
-		var r rec
-		json.Unmarshal(rb, &r)
-		switch r.Kind {
-		case "count":
-			total += r.N
-			later += r.Later
-			redRuns += r.RedRuns
-			if shardPlan[si] >= 0 {
-				nm := plans[shardPlan[si]].name
-				if got[nm] == nil {
-					got[nm] = map[int]int64{}
+	run := func(shards []pool.Shard, plan string) {
+		pool.Run(shards, pool.Options{}, func(si int, rb json.RawMessage) {
+			var r rec
+			json.Unmarshal(rb, &r)
+			switch r.Kind {
+			case "count":
+				total += r.N
+				later += r.Later
+				redRuns += r.RedRuns
+				if plan != "" {
+					if got[plan] == nil {
+						got[plan] = map[int]int64{}
+					}
+					for l, n := range r.ByLen {
+						got[plan][l] += n
+					}
+				} else {
+					tableN += r.N
 				}
-				for l, n := range r.ByLen {
-					got[nm][l] += n
+				for k, n := range r.Outcomes {
+					outcomes[k] += n
 				}
-			} else {
-				tableN += r.N
+			case "fail":
+				c.Fail(r.Key, r.Clause, r.Size, r.Case, r.Detail)
+			case "failcount":
+				for i := int64(0); i < r.N; i++ {
+					c.Fail(r.Key, "", 1<<30, nil, "")
+				}
+			case "sample":
+				c.Sample(r.Case)
 			}
-			for k, n := range r.Outcomes {
-				outcomes[k] += n
+		}, func(d pool.Death) {
+			c.Fail("worker-death:"+runner.FatalFrame(d.Stderr), "crash", 0, map[string]any{"item": d.Item, "reason": d.Reason}, d.Stderr)
+		})
+	}
+	run([]pool.Shard{{Kind: "table", Arg: shardArg{Seed: c.Seed}}}, "")
+	var donePlans []plan
+	for _, p := range plans {
+		// a plan (one complete history space) is only started while the budget lasts
+		if c.Expired() {
+			names := []string{}
+			for _, d := range donePlans {
+				names = append(names, fmt.Sprintf("%s<=%d", d.name, d.maxLen))
 			}
-		case "fail":
-			c.Fail(r.Key, r.Clause, r.Size, r.Case, r.Detail)
-		case "failcount":
-			for i := int64(0); i < r.N; i++ {
-				c.Fail(r.Key, "", 1<<30, nil, "")
-			}
-		case "sample":
-			c.Sample(r.Case)
+			c.NotExhaustive("budget expired; completed plans: " + strings.Join(names, ", "))
+			break
 		}
-	}, func(d pool.Death) {
-		c.Fail("worker-death:"+runner.FatalFrame(d.Stderr), "crash", 0, map[string]any{"item": d.Item, "reason": d.Reason}, d.Stderr)
-	})
+		expected[p.name] = countSeqs(p.a, p.maxLen)
+		shards := []pool.Shard{{Kind: "short", Arg: shardArg{MaxLen: plen - 1, Alpha: p.a, Seed: c.Seed}}}
+		for _, o1 := range successors(nil, p.a, nil) {
+			for _, o2 := range successors([]Op{o1}, p.a, nil) {
+				shards = append(shards, pool.Shard{Kind: "seq", Arg: shardArg{Prefix: []Op{o1, o2}, MaxLen: p.maxLen, Alpha: p.a, Seed: c.Seed}})
+			}
+		}
+		run(shards, p.name)
+		donePlans = append(donePlans, p)
+	}
+	plans = donePlans
 	// the workers' tally must equal the closed-form count of the history space (nothing skipped)
 	for _, p := range plans {
 		for l := 1; l <= p.maxLen; l++ {
@@ -658,7 +666,7 @@ func main() {
 	c.Assume("sequential histories only: the concurrent clause of the statement is not decided by this check (extension point in main.go)")
 	c.Assume("members typed with the type parameter are: a public property, and a method whose body stores its argument into that property; whether a method *parameter* declared T is checked before the body runs is not asserted (both orders reject the call)")
 	c.Assume("value kinds int/string/array/instances of two user classes; PHP-style coercions (numeric strings, bool, float, null) are outside the enumerated value pool; docs/array_methods.md documents strict rejection for generic containers")
-	if outcomes["A"] == 0 || outcomes["R"] == 0 || outcomes["N"] == 0 {
+	if len(plans) > 0 && (outcomes["A"] == 0 || outcomes["R"] == 0 || outcomes["N"] == 0) {
 		c.HarnessError("vacuous: accepted=%d rejected=%d new=%d", outcomes["A"], outcomes["R"], outcomes["N"])
 	}
 	names := []string{}
